@@ -301,7 +301,7 @@ def run(ctx):
             traces, sk = record_all(ctx, chunk, pool)
             skipped += sk
             nprog += len(traces)
-            core_skipped = [x for x in sk if x[1].startswith(('corpus', 'extra'))]
+            core_skipped = [x for x in sk if x[1].startswith(('corpus', 'extra')) and x[1].endswith('/v0')]   # layout variants are only counted
             if core_skipped:
                 raise common.Machinery(f'oracle could not be built for corpus inputs: {core_skipped[:3]}')
             verd = validate_all(ctx, traces)
